@@ -173,6 +173,8 @@ type Exec struct {
 	lastErr   string
 	stateSigs map[string]struct{}
 	sigHook   func()
+	bdir      string
+	bgen      int
 	dead      bool // a call panicked or hung: the rest of the history is skipped
 }
 
@@ -425,6 +427,11 @@ func (x *Exec) step(op *Op) {
 			return
 		}
 		x.rmIndex(op.Segs)
+	case "backup":
+		if x.l == nil {
+			return
+		}
+		x.backup(op)
 	case "ixprobe":
 		if x.l != nil {
 			return
